@@ -103,6 +103,14 @@ else:
         'E5': ('ovsdb/*.go (notation, set, map, uuid, condition, mutation, schema, bindings, error, named_uuid, monitor_select, update*)', 'equivalent restructuring of (un)marshalling and validation code, new String()/GoString helpers, new exported pure helper functions, table-driven dispatch with the same entries, better error text, pre-sizing; keep wire formats byte-for-byte'),
         'E6': ('mapper/*.go, model/*.go, modelgen/*.go, ovsdb/serverdb/*.go, cmd/*', 'new pure helpers, clearer errors, restructured reflection code with identical results, extra doc comments in generated output ONLY if they do not change declared types, CLI flag help text, pre-sizing'),
     }
+    if kind == 'evolve2':
+        groups = {
+            'I1': ('ovsdb/named_uuid.go (ExpandNamedUUIDs, expandColumnNamedUUIDs, expandNamedUUID, expandNamedUUIDAtomic) and its callers', 'equivalent restructuring: one helper per operation member (where / mutations / rows / row), a helper per pass, dispatch on the operation kind that still treats every member every kind may carry, pre-sizing, clearer errors, skipping work only where it is provably a no-op for every input (say why), table-driven variants'),
+            'I2': ('client/client.go: connect, tryEndpoint, transact, Transact, handleInactivityProbes, handleDisconnectNotification, handleClientErrors, handleCacheErrors, Disconnect/Close', 'equivalent restructuring: a helper that starts a handler goroutine and does the WaitGroup accounting, a helper that signals traffic to the inactivity probe, error classification helpers (errors.Is/As), clearer logging, splitting connect into phases with the same order of side effects, context plumbing that keeps defaults'),
+            'I3': ('ovsdb/map.go, ovsdb/set.go, ovsdb/row.go, ovsdb/notation.go, ovsdb/uuid.go, ovsdb/condition.go, ovsdb/mutation.go', 'equivalent restructuring of the decoders: key/element validation moved into helpers, type switches rewritten as comma-ok chains or the reverse, loops that collect into pre-sized containers, early returns, error wrapping with more context (keeping errors returned where they were returned), byte-for-byte identical wire formats'),
+            'I4': ('ovsdb/schema.go, ovsdb/bindings.go, ovsdb/error.go, ovsdb/update*.go, mapper/mapper.go, mapper/info.go', 'restructured error handling that keeps every failure visible to the caller: inverted conditions (`if err == nil {{ ... }}` vs early return), named results, errors wrapped with %w, errors collected and joined instead of returning the first (all still reported), helper extraction, table-driven dispatch with the same entries'),
+            'I5': ('updates/references.go, updates/updates.go, updates/merge.go, cache/cache.go (Update, Delete, Purge, Populate*, index maintenance)', 'equivalent restructuring: helper extraction in the reference tracker loop and in index maintenance, renamed locals, pre-sizing, early returns, clearer errors, comments, replacing a manual loop with a helper'),
+        }
     for k, (focus, kinds) in groups.items():
         wd = base + '/' + k
         wt(wd)
